@@ -9,7 +9,7 @@ VERIF = os.path.dirname(os.path.dirname(os.path.abspath(__file__)))
 sys.path.insert(0, VERIF)
 
 # properties whose check is complete, green on the unchanged tree and reviewed by the lead
-CLAIMED = ['C05', 'C06', 'C14', 'C18', 'C19']
+CLAIMED = ['C05', 'C06', 'C09', 'C10', 'C14', 'C16', 'C18', 'C19']
 
 NOT_APPLICABLE = {
 }
